@@ -212,7 +212,7 @@ def check(run, prog, tier):
             kind = None
             if "ALLOC_ARRAY" in m or "RESIZE_ARRAY" in m:
                 kind = ("array", "__MAX_ARRAY_SIZE__")
-            elif n.get("fn") in ("xcalloc", "calloc", "xalloc", "malloc", "realloc") and ("buffer_s" in show(n) or "buffer_t" in show(n)) and "sizeof" in show(n):
+            elif n.get("fn") in ("xcalloc", "calloc", "xalloc", "malloc", "realloc") and ("sizeof(struct buffer_s)" in show(n) or "sizeof(buffer_t)" in show(n)):
                 kind = ("buffer", "__MAX_BUFFER_SIZE__")
             if kind is None:
                 continue
